@@ -17,6 +17,22 @@ def rapid(name, test, quick, thorough, **kw):
     return d
 
 CHECKS = {
+    "C15": {
+        "level": "exploration",
+        "phases": [
+            rapid("prop", "TestProp",
+                  {"checks": 36, "shards": 12, "timeout": 500, "shrinktime": "40s"},
+                  {"checks": 480, "shards": 16, "timeout": 3000, "shrinktime": "90s"}),
+        ],
+    },
+    "C17": {
+        "level": "exploration",
+        "phases": [
+            plain("sizes", "TestSizes",
+                  {"shards": 5, "timeout": 600},
+                  {"shards": 12, "timeout": 3000}),
+        ],
+    },
     "C19": {
         "level": "exploration",
         "phases": [
